@@ -9,19 +9,21 @@ RULE = ("batches of 2..7 expressions (random + rule-directed, narrow per-batch w
         "whose cache exceeds 6000 tree nodes are compared on results only, key batch); a 20 s watchdog per batch detects non-termination. "
         "distinct = distinct batches")
 ASSUMPTIONS = [
-    "termination is PROVED for the cache-free driver model (polynomial measure mu, strictly decreased by every rule); for the memoising driver the theorems "
-    "cover calls that return (a watchdog observes the real code); run time is not part of the statement (the proved fuel bound is exponential in the widths)",
+    "termination is PROVED for the cache-free driver model (polynomial measure mu, strictly decreased by every rule) and transferred to the memoising driver "
+    "model by the completeness theorem (C13_cached_complete); a watchdog still observes the real code; run time is not part of the statement",
     "cache transparency is PROVED for the memoising driver model (cache as a finite map; calls that return); the two cache containers are abstracted to that "
     "finite-map interface, their agreement (results and final contents) is compared on generated histories, not proved",
 ]
 MANIFEST = dict(
-    level_text=("Theorems in Coq: C13_simp_terminates (every well-typed expression: the driver model never runs out of fuel), C13_rules_decrease (measure), "
+    level_text=("Theorems in Coq: C13_simplifier_total (the whole property for the memoising driver model: for every well-typed expression without a product "
+                "wider than 128 bits there is ONE well-typed equivalent fixed point r that the driver returns after ANY history with the same instance, "
+                "and returns again for r itself), from C13_cached_complete / C13_cached_iff (memoising driver returns exactly when the cache-free one does), C13_simp_terminates (every well-typed expression: the driver model never runs out of fuel), C13_rules_decrease (measure), "
                 "C13_simp_returns (a well-typed, equivalent fixed point is returned unless a product wider than 128 bits panics in baa), C13_simp_idempotent_partial / C13_simp_fuel_independent (results of the cache-free driver model are fixed points and unique), "
                 "C13_cache_transparent, C13_history_transparent, C13_history_independent, C13_cached_idempotent (the memoising driver model of transform.rs/"
                 "meta.rs - work stack, persistent cache, re-queuing, get_fixed_point with pointer updates - returns, after ANY history with the same instance, "
                 "the cache-free result of the expression alone; invariant cache_inv holds for the empty cache and is preserved by every call). "
                 "Tie: results AND final cache contents of real sparse/dense instances against the extracted model."),
-    level_note="Termination proved for the cache-free driver model; cache theorems are for calls of the memoising driver that return; container difference (sparse/dense) tested, not proved.",
+    level_note="Full for the model (termination, idempotence, cache transparency, completeness); container difference (sparse/dense) and run time are outside the theorems (tested / not claimed).",
     category="proof",
 )
 
